@@ -743,6 +743,15 @@ class Exec:
                               % (self.where(st), self.loop_ordinal(st)))
         self.cut_loop(st, fr, inv, seq)
 
+    def eval_invariant(self, inv, L, k):
+        """the named clauses of a loop invariant in the current state; an invariant that names a local variable the function no
+        longer has (renamed, removed) cannot be evaluated: the function is undecided, not wrong"""
+        try:
+            return named(inv(self, L))
+        except KeyError as e:
+            raise Unsupported("the invariant of loop #%s of %s refers to %s, which is not a local variable here (renamed or removed?): "
+                              "the contract needs review" % (k, self.cur_func.key if self.cur_func else "?", e))
+
     def loop_ordinal(self, st):
         f = self.cur_func
         for k, n in enumerate(f.loops()):
@@ -776,7 +785,7 @@ class Exec:
         if seq is not None:
             L.bind_index(0)
         n_pc = len(self.pc)
-        for name, g in named(inv(self, L)).items():
+        for name, g in self.eval_invariant(inv, L, k).items():
             self.oblige("%s.%s.inv-init.%s" % (self.prop, lid, name), g, "inv-init", st)
             if c.sequential:
                 self.assume(g)      # clauses are proved in order: an earlier clause is a hypothesis of the later ones
@@ -849,7 +858,7 @@ class Exec:
                 self.assume(z3.And(kk >= 0, kk < z(seq.length)))
                 L.k = kk
                 L.bind_index(kk)
-            for name, g in named(inv(self, L)).items():
+            for name, g in self.eval_invariant(inv, L, k).items():
                 self.assume(g)
             if not self.feasible(z3.BoolVal(True) if not self.pc else self.pc[-1]):
                 raise PathEnd("infeasible")       # the invariant excludes this combination of havoced values
@@ -870,7 +879,7 @@ class Exec:
             if seq is not None:
                 L.k = kk + 1
                 L.bind_index(kk + 1)
-            for name, g in named(inv(self, L)).items():
+            for name, g in self.eval_invariant(inv, L, k).items():
                 self.oblige("%s.%s.inv-step.%s" % (self.prop, lid, name), g, "inv-step", st)
                 if c.sequential:
                     self.assume(g)  # proved in order (the path ends here)
@@ -889,7 +898,7 @@ class Exec:
                 end = z3.If(n > 0, n, z3.IntVal(0))
                 L.k = z3.simplify(end)
                 L.bind_index(L.k)
-                for name, g in named(inv(self, L)).items():
+                for name, g in self.eval_invariant(inv, L, k).items():
                     self.assume(g)
                 if not self.feasible(z3.BoolVal(True) if not self.pc else self.pc[-1]):
                     raise PathEnd("infeasible")
@@ -897,7 +906,7 @@ class Exec:
                 if isinstance(st.target, ast.Name) and self.branch(n > 0):
                     self.assign(st.target, seq.item(z3.simplify(n - 1)), fr)
             else:
-                for name, g in named(inv(self, L)).items():
+                for name, g in self.eval_invariant(inv, L, k).items():
                     self.assume(g)
                 if not self.feasible(z3.BoolVal(True) if not self.pc else self.pc[-1]):
                     raise PathEnd("infeasible")
@@ -1439,6 +1448,9 @@ class Exec:
                 base.fields["$state"], base.fields["$fitted"] = v.term, True      # the ghost fitted attribute of an opaque estimator
                 base.events.append(("set", attr))
                 return
+            if base.tag == "estimator" and attr.endswith("_") and not attr.startswith("_") and base.fields.get("$fitted"):
+                # a fitted attribute of an opaque estimator is overwritten (coef_, intercept_ ...): it is another model from now on
+                base.fields["$state"] = z3.Const(fresh_name(base.fields.get("$name", "est") + "_modified"), base.fields["$state"].sort())
             base.fields[attr] = v
             base.events.append(("set", attr))
             return
